@@ -320,7 +320,7 @@ func run(c *hl.Ctx) error {
 		c.Emit(escCase(s))
 		c.Count("esc:corpus")
 	}
-	for i, n := 0, c.Pick(2000, 100000); i < n; i++ {
+	for i, n := 0, pickSmall(c); i < n; i++ {
 		c.Emit(escCase(randString(r, r.Intn(12))))
 		c.Count("esc:random")
 	}
@@ -330,7 +330,7 @@ func run(c *hl.Ctx) error {
 		c.Emit(gradCase(s))
 		c.Count("grad:corpus")
 	}
-	for i, n := 0, c.Pick(2000, 100000); i < n; i++ {
+	for i, n := 0, pickSmall(c); i < n; i++ {
 		c.Emit(gradCase(randGradient(r)))
 		c.Count("grad:random")
 	}
@@ -342,6 +342,9 @@ func run(c *hl.Ctx) error {
 	}
 	runJobs(c, jobs)
 	total := c.Pick(400, 30000)
+	if c.Search && c.Tier != "thorough" {
+		total = 1500 // an obligation broke: a moderate search budget, not the thorough tier
+	}
 	feats := svgr.Features{}
 	for done := 0; done < total; {
 		jobs = jobs[:0]
@@ -401,4 +404,11 @@ func cpString(v any) string {
 		}
 	}
 	return b.String()
+}
+
+func pickSmall(c *hl.Ctx) int {
+	if c.Tier == "thorough" {
+		return 100000
+	}
+	return 2000
 }
